@@ -403,6 +403,20 @@ func gen(g *core.G) {
 		g.Emit("@law-var " + s(v) + " " + s(t))
 	}
 
+	// ---- (2a) chains built on purpose through the rules the random walk rarely lines up (lat/chains.go): the built-in aliases in
+	// the middle / on the right / on the left, Struct ⊒ Struct ⊒ Struct with members dropped / made required, Iterable through Hash /
+	// Struct / the String family / Binary
+	lg.Alias, lg.NoUnit = false, true
+	for _, tr := range lg.AliasChains(1500 * g.Scale) {
+		g.Emit("trans " + s(tr.A) + " " + s(tr.B) + " " + s(tr.C))
+	}
+	for _, tr := range lg.StructChains(1200 * g.Scale) {
+		g.Emit("trans " + s(tr.A) + " " + s(tr.B) + " " + s(tr.C))
+	}
+	for _, tr := range lg.IterChains(1200 * g.Scale) {
+		g.Emit("trans " + s(tr.A) + " " + s(tr.B) + " " + s(tr.C))
+	}
+
 	// ---- (2') the recursion guard of aliases: one alias object meeting the same right-hand part twice -----------
 	for _, gc := range lg.GuardCases(300 * g.Scale) {
 		g.Emit("asg " + s(gc.A) + " " + s(gc.B))
